@@ -3,7 +3,8 @@
 
    flowmap : the dict  hash -> [flows]  as a sequence (dict insertion order; recompute_hashes depends on it) of
              [key |-> CodeKey, ids |-> <<recording ids>>]
-   recs    : every recording handed over so far (id -> [id, http, hasresp, req])
+   The recordings handed over so far (id -> [id, http, hasresp, req]) are read from mon.recs, which holds exactly
+   the records of the emitted add events (no second copy in the model state: the dumped graph stays small).
    opts    : ctx.options (the server_replay_* options, see Mon_ServerReplay)
    Two behaviours exist before / after the fixes 155ecd753 and 632209ed8; props/C52.py passes the values that
    describe the tree under test:
@@ -19,10 +20,11 @@ CONSTANTS Batches,    \* sequence of sequences of [http, hasresp, req]
           MaxOps, MaxLoads,
           PathParams,   \* "dropped" | "kept"
           ReindexOrder  \* "grouped" | "recording"
-VARIABLES flowmap, recs, opts, ops, nloads, mon, obs
-vars == <<flowmap, recs, opts, ops, nloads, mon, obs>>
+VARIABLES flowmap, opts, ops, nloads, mon, obs
+vars == <<flowmap, opts, ops, nloads, mon, obs>>
+recs == mon.recs
 
-Init == /\ flowmap = <<>> /\ recs = <<>> /\ opts \in InitOpts /\ ops = 0 /\ nloads = 0
+Init == /\ flowmap = <<>> /\ opts \in InitOpts /\ ops = 0 /\ nloads = 0
         /\ mon = MonStep(MonInit, [k |-> "cfg", opts |-> opts, held |-> <<>>, n |-> 0])
         /\ obs = <<[k |-> "cfg", opts |-> opts, held |-> <<>>, n |-> 0]>>
 Emit(evs) == obs' = evs /\ mon' = FoldEvents(MonStep, mon, evs)
@@ -64,7 +66,7 @@ Load(b) ==
   /\ LET new == NewRecs(b)
          rs == recs \o new
          fm == AddAll(<<>>, rs, [i \in 1..Len(new) |-> new[i].id], opts)
-     IN /\ recs' = rs /\ flowmap' = fm
+     IN /\ flowmap' = fm
         /\ Emit(<<[k |-> "add", reset |-> TRUE, recs |-> new, held |-> Held(fm), n |-> CountIds(fm)]>>)
   /\ ops' = ops + 1 /\ nloads' = nloads + 1 /\ UNCHANGED opts
 
@@ -74,7 +76,7 @@ Add(b) ==
   /\ LET new == NewRecs(b)
          rs == recs \o new
          fm == AddAll(flowmap, rs, [i \in 1..Len(new) |-> new[i].id], opts)
-     IN /\ recs' = rs /\ flowmap' = fm
+     IN /\ flowmap' = fm
         /\ Emit(<<[k |-> "add", reset |-> FALSE, recs |-> new, held |-> Held(fm), n |-> CountIds(fm)]>>)
   /\ ops' = ops + 1 /\ nloads' = nloads + 1 /\ UNCHANGED opts
 
@@ -83,7 +85,7 @@ Clear ==
   /\ Live /\ ops < MaxOps /\ flowmap # <<>>
   /\ flowmap' = <<>>
   /\ Emit(<<[k |-> "clear", held |-> <<>>, n |-> 0]>>)
-  /\ ops' = ops + 1 /\ UNCHANGED <<recs, opts, nloads>>
+  /\ ops' = ops + 1 /\ UNCHANGED <<opts, nloads>>
 
 HashNames == {"ic", "ih", "ip", "iparams", "ipay", "uh"}
 RECURSIVE Concat(_)
@@ -98,7 +100,7 @@ SetOption(u) ==
          fm == IF OptOps[u].name \in HashNames THEN AddAll(<<>>, recs, flat, o2) ELSE flowmap
      IN /\ opts' = o2 /\ flowmap' = fm
         /\ Emit(<<[k |-> "opt", opts |-> o2, held |-> Held(fm), n |-> CountIds(fm)]>>)
-  /\ ops' = ops + 1 /\ UNCHANGED <<recs, nloads>>
+  /\ ops' = ops + 1 /\ UNCHANGED nloads
 
 \* next_flow + request
 FirstResp(ids) == LET hits == { i \in 1..Len(ids) : recs[ids[i]].hasresp }
@@ -126,7 +128,7 @@ Request(q) ==
                    isr |-> IF out \in {"replay", "status"} THEN "response" ELSE "",
                    held |-> Held(IF active THEN fm ELSE flowmap),
                    n |-> CountIds(IF active THEN fm ELSE flowmap)]>>)
-  /\ ops' = ops + 1 /\ UNCHANGED <<recs, opts, nloads>>
+  /\ ops' = ops + 1 /\ UNCHANGED <<opts, nloads>>
 
 Next == \/ \E b \in 1..Len(Batches) : Load(b)
         \/ \E b \in 1..Len(Batches) : Add(b)
